@@ -15,7 +15,7 @@ import vlib
 
 THEOREMS = [
     "csv_codec_roundtrip", "csv_reader_roundtrip", "csv_header_drops_first_record", "csv_file_roundtrip",
-    "table_roundtrip_partial",
+    "table_roundtrip_partial", "table_roundtrip_typed",
     "null_cell_unsound", "null_cell_int_error", "empty_string_unsound", "zero_interval_unsound",
     "escape_option_regression", "blob_column_regression", "header_regression",
 ]
